@@ -82,6 +82,12 @@ def random_arg(rng, later_svcs, params, tags_ok):
     return astr(rng.choice(["text", " padded ", "7", "true", "a:b"]))
 
 
+def nargs(rng, hi):
+    """argument count: mostly small, now and then more than ten (positions with two digits: C02-r7-m1 emitted the
+    arguments in the string order of their positions - 0, 1, 10, 11, 2 ...)"""
+    return rng.randrange(11, 15) if rng.random() < 0.12 else rng.randrange(0, hi)
+
+
 def runtime_cfg(rng, n=None):
     """acyclic by construction (references point to later services only); scope violations possible (the model filters)"""
     n = n or rng.randrange(5, 9)
@@ -113,12 +119,12 @@ def runtime_cfg(rng, n=None):
     for i, s in enumerate(names):
         later = names[i + 1:]
         tags_ok = [t for t in tags if carriers[t] and min(carriers[t]) > i]
-        args = [random_arg(rng, later, params, tags_ok) for _ in range(rng.randrange(0, 4))]
+        args = [random_arg(rng, later, params, tags_ok) for _ in range(nargs(rng, 4))]
         calls = []
         for _ in range(rng.choice([0, 0, 1, 2])):
             w = rng.random() < 0.35
             calls.append({"m": rng.choice(["WithX", "WithY"]) if w else rng.choice(["SetX", "SetY"]),
-                          "args": [random_arg(rng, later, params, tags_ok) for _ in range(rng.randrange(0, 3))], "w": w})
+                          "args": [random_arg(rng, later, params, tags_ok) for _ in range(nargs(rng, 3))], "w": w})
         fields = []
         for f in rng.sample(["F1", "F2", "f3"], rng.choice([0, 0, 1, 2])):
             fields.append({"n": f, "a": random_arg(rng, later, params, tags_ok)})
@@ -131,7 +137,7 @@ def runtime_cfg(rng, n=None):
         # decorator arguments must not reach a service that carries the tag (cycle): literals, parameters, or the last service if untagged
         ok_last = [x for x in last if not tagsets[x]]
         decs.append({"tag": t, "fn": rng.choice(["fx.Decorate", "fx.DecorateB", "fx.DecorateC"]),
-                     "args": [random_arg(rng, ok_last, params, []) for _ in range(rng.randrange(0, 3))]})
+                     "args": [random_arg(rng, ok_last, params, []) for _ in range(nargs(rng, 3))]})
     return {"version": U, "meta": base_meta(), "params": pvals, "services": services, "decorators": decs}
 
 
